@@ -138,6 +138,80 @@ def fillHole (X : Ctx) (q : DPtr) (base : Nat) : Nat → Nat → Vec.IterScript 
       fillHole X q base n (idx + 1) fill'
     | none => pure (false, fill')
 
+/-- the replacement ended inside the hole: the tail is moved down behind what was filled in -/
+def closeGap (X : Ctx) (d : DrainSt) : VM Unit := do
+  let l ← lift X (Gen.len X.env)
+  if l = d.tailPos then
+    lift X (Gen.set_len X.env (l + d.tail))
+  else do
+    let q ← lift X (Gen.as_mut_ptr X.env)
+    inb q (l + d.tail)
+    cp q d.tailPos l d.tail
+    lift X (Gen.set_len X.env (l + d.tail))
+
+/-- the hole is full and `tmp` holds the rest of the replacement: make room for it.
+    Returns the vector's length and `tmp`'s length. -/
+def makeRoom (X : Ctx) (d : DrainSt) (tmp : VSt) : VM (Nat × Nat) := do
+  let cap ← lift X (Gen.capacity X.env)
+  let l ← lift X (Gen.len X.env)
+  let (tl, _) ← onVec tmp (lift X (Gen.len X.env))
+  let t1 ← lift X (GM.liftE (uadd X.m l d.tail))
+  let total ← lift X (GM.liftE (uadd X.m t1 tl))
+  if total > cap then do
+    let a ← lift X (Gen.alignment X.env)
+    lift X (Gen.grow X.env total a)
+  else pure ()
+  pure (l, tl)
+
+/-- move the tail up behind the room for `tl` more elements -/
+def tailUp (X : Ctx) (d : DrainSt) (l tl : Nat) : VM Unit :=
+  if d.tail > 0 then do
+    let q ← lift X (Gen.as_mut_ptr X.env)
+    inb q (l + tl + d.tail)
+    cp q d.tailPos (l + tl) d.tail
+  else pure ()
+
+/-- move `tmp`'s `tl` elements into the slots behind `l` -/
+def moveIn (X : Ctx) (tmp : VSt) (l tl : Nat) : VM Unit := do
+  let (es, _) ← onVec tmp (if tl = 0 then pure [] else do
+    let p ← lift X (Gen.as_ptr X.env)
+    rdRange p 0 tl)
+  if tl ≠ 0 then do
+    let q ← lift X (Gen.as_mut_ptr X.env)
+    inb q (l + tl)
+    forN tl (fun i => wr q (l + i) (es.getD i default))
+  else pure ()
+
+/-- move the tail up, move `tmp`'s elements in, publish the new length -/
+def placeRest (X : Ctx) (d : DrainSt) (tmp : VSt) (l tl : Nat) : VM Unit := do
+  tailUp X d l tl
+  moveIn X tmp l tl
+  lift X (Gen.set_len X.env (l + d.tail + tl))
+
+def insertBody (X : Ctx) (d : DrainSt) (tmp : VSt) : VM Unit := do
+  let (l, tl) ← makeRoom X d tmp
+  placeRest X d tmp l tl
+
+/-- `let mut tmp: MiniVec<_> = (&mut fill_).collect();` and what follows.
+    `tmp` is a local: destroyed with its elements if the body unwinds; on the normal path its
+    length is zeroed first (the elements now belong to the vector) -/
+def insertRest (X : Ctx) (d : DrainSt) (fill : Vec.IterScript) : VM Unit := do
+  let (tmp, _) ← Vec.collect X fill
+  onUnwind (insertBody X d tmp) (do let _ ← onVec tmp (Vec.dropVec X); pure ())
+  let (tl, tmp) ← onVec tmp (lift X (Gen.len X.env))
+  let (_, tmp) ← onVec tmp (if tl ≠ 0 then lift X (Gen.set_len X.env 0) else pure ())
+  let _ ← onVec tmp (Vec.dropVec X)
+  pure ()
+
+/-- the part of `DropGuard::drop` that runs on a vector with storage -/
+def refill (X : Ctx) (d : DrainSt) (fill : Vec.IterScript) : VM Unit := do
+  let q ← lift X (Gen.as_mut_ptr X.env)
+  let l0 ← lift X (Gen.len X.env)
+  inb q l0
+  let numDrained := d.tailPos - l0
+  let (needsMore, fill) ← fillHole X q l0 numDrained 0 fill
+  if !needsMore then closeGap X d else insertRest X d fill
+
 /-- `DropGuard::drop` of Splice -/
 def guardBody (X : Ctx) (s : SpliceSt) : VM Unit := do
   let d ← Drain.dropRest X (s.d.stop - s.d.pos + 1) s.d
@@ -145,55 +219,7 @@ def guardBody (X : Ctx) (s : SpliceSt) : VM Unit := do
   if dflt then do
     let _ ← Vec.forIter X (Vec.push X) (s.fill.length + 1) s.fill
     pure ()
-  else do
-    let q ← lift X (Gen.as_mut_ptr X.env)
-    let l0 ← lift X (Gen.len X.env)
-    inb q l0
-    let numDrained := d.tailPos - l0
-    let (needsMore, fill) ← fillHole X q l0 numDrained 0 s.fill
-    if !needsMore then do
-      let l ← lift X (Gen.len X.env)
-      if l = d.tailPos then
-        lift X (Gen.set_len X.env (l + d.tail))
-      else do
-        let q ← lift X (Gen.as_mut_ptr X.env)
-        inb q (l + d.tail)
-        cp q d.tailPos l d.tail
-        lift X (Gen.set_len X.env (l + d.tail))
-    else do
-      -- let mut tmp: MiniVec<_> = (&mut fill_).collect();
-      let (tmp, _) ← Vec.collect X fill
-      let body : VM Unit := do
-        let cap ← lift X (Gen.capacity X.env)
-        let l ← lift X (Gen.len X.env)
-        let (tl, _) ← onVec tmp (lift X (Gen.len X.env))
-        let t1 ← lift X (GM.liftE (uadd X.m l d.tail))
-        let total ← lift X (GM.liftE (uadd X.m t1 tl))
-        if total > cap then do
-          let a ← lift X (Gen.alignment X.env)
-          lift X (Gen.grow X.env total a)
-        else pure ()
-        if d.tail > 0 then do
-          let q ← lift X (Gen.as_mut_ptr X.env)
-          inb q (l + tl + d.tail)
-          cp q d.tailPos (l + tl) d.tail
-        else pure ()
-        let (es, _) ← onVec tmp (if tl = 0 then pure [] else do
-          let p ← lift X (Gen.as_ptr X.env)
-          rdRange p 0 tl)
-        if tl ≠ 0 then do
-          let q ← lift X (Gen.as_mut_ptr X.env)
-          inb q (l + tl)
-          forN tl (fun i => wr q (l + i) (es.getD i default))
-        else pure ()
-        lift X (Gen.set_len X.env (l + d.tail + tl))
-      -- `tmp` is a local: destroyed with its elements if the body unwinds; on the normal path its
-      -- length is zeroed first (the elements now belong to the vector)
-      onUnwind body (do let _ ← onVec tmp (Vec.dropVec X); pure ())
-      let (tl, tmp) ← onVec tmp (lift X (Gen.len X.env))
-      let (_, tmp) ← onVec tmp (if tl ≠ 0 then lift X (Gen.set_len X.env 0) else pure ())
-      let _ ← onVec tmp (Vec.dropVec X)
-      pure ()
+  else refill X d s.fill
 
 def dropLoop (X : Ctx) : Nat → SpliceSt → VM SpliceSt
   | 0, s => pure s
